@@ -6,6 +6,10 @@ import asyncio
 from mc.core import vloop as V
 
 
+class HandshakeFailed(Exception):
+    """the library Client did not end up with the devices of the deployment after start() + getProperties"""
+
+
 class FakeConnection:
     """duck-typed stand-in for indi.transport.client.tcp.TCP: connect() builds the REAL client
     ConnectionHandler on fake streams and spawns the REAL server handler for the other end."""
@@ -110,6 +114,8 @@ class World:
 
         from mc.core.bufgraph import Hang
 
+        if getattr(B.Buffer, "_mc_guarded", False):
+            return  # the process-wide watchdog of mc.core.guard is already in place
         orig = B.Buffer.process
 
         def handler(signum, frame):
@@ -147,8 +153,11 @@ class World:
         t = self.loop.create_task(c.start())
         self.settle()
         if not t.done():
-            raise RuntimeError("Client.start() did not complete")
+            raise HandshakeFailed("Client.start() did not complete")
         t.result()
+        missing = [s["name"] for s in self.specs if s["name"] not in c.devices]
+        if missing and any(v.get("enabled", True) and g.get("enabled", True) for s in self.specs if s["name"] in missing for g in s["groups"] for v in g["vectors"]):
+            raise HandshakeFailed("after the handshake the client knows nothing about device(s) %r (receive loops ended: %r)" % (missing, [l.server_task.done() for l in self.links]))
         return c
 
     def deliver_some(self, pipe):
